@@ -76,7 +76,11 @@ disagreements (`driver_divergence`, never a violation by itself).
 Hangs are decided on logical steps: `verifhook.EOFRead()` (reader at end of
 input) and `verifhook.Token()` (parser token fetch) count against budgets
 5000+50n and 20000+400n (n = input bytes; measured legitimate maxima are in
-every evidence file as `step_max`, two orders of magnitude below). A hang needs
+every evidence file as `step_max`, two orders of magnitude below); a third
+counter, `verifhook.Walk()` (one ancestor-list expansion in `base.parentNodes`,
+budget 50x the token budget), was added when a seeded change made a lookup walk
+exponential in the depth of an include lattice without fetching a single token
+(family `inheritance-lattice`). A hang needs
 the tripped budget (or death by stack exhaustion) in-process AND 3 of 3
 `timeout` outputs of the plain binary while all lanes are paused. The harness's
 own wall clocks (12 s in-process, 20 s black-box) only produce `inconclusive`.
@@ -94,16 +98,16 @@ printing) is never compared; it is retried or skipped and counted.
 | C03 | lexer probe hook | all strings of length <= 4 over 24 hostile symbols (quick), Unicode category representatives, corpus prefixes: termination within budget, full consumption, token count <= 2n+2 |
 | C04 | process boundary per mode | `--suggest/--hover/--define` with `--row` inside, at, and beyond the file; record grammar per mode |
 | C05 | repeated runs | 13 modes x corpus/generated/tie programs, 3-6 fresh processes each with different GOMAXPROCS/GOGC, byte equality (set equality for `--define`); race build in thorough |
-| C06 | relational (layout) | blank lines, comment lines, two of them, three-line =begin/=end blocks at safe boundaries, final newline dropped/doubled, string literals widened: rows map, everything else equal |
-| C07-C09 | reference model | `typed.go`: 320 generated programs over the shipped and 4 generated configurations: literals, ternary unions, reassignment, array/hash literals (nested too), indexing, push/<< growth, calls (own, inherited, Object methods, keywords, overloads, union receivers, Untyped members, multi-line argument lists and blocks, calls nested in if/unless/while/elsif/blocks); model `cfgmodel.go` = documented meaning of .ti-config; C07 certain-fail rows need a diagnostic on the row the call starts on, C08 certain-ok rows need none, C09 probes compared as type sets (nested arrays as (depth, class) pairs) |
-| C10 | reference model | 300 programs, ~10k probes: if/unless/elsif/else nested to depth 3, `x.nil?`, `!x.nil?`, `x.is_a?(C)`, && chains over distinct and the same variable, unrelated statements and inner conditionals, also inside a method |
+| C06 | relational (layout) | blank lines, comment lines, two of them, three-line =begin/=end blocks at safe boundaries, final newline dropped/doubled, string literals widened by a real newline or a backslash-newline: rows map, everything else equal; adjacency family (`c06adj.go`): 38 complete statements x 28 following statements whose first token could continue an expression (`if`/`unless`/`while`/`until`, `[`, `(`, `!`, literals) plus 16 body headers (`in`/`when`/`else`/`rescue`/`do`/`def` ...) x the same 28, the line inserted exactly between the two (300 random pairs quick, all pairs thorough) |
+| C07-C09 | reference model | `typed.go`: 320 generated programs over the shipped and 4 generated configurations: literals, ternary unions, reassignment, array/hash literals (nested too), indexing, push/<< growth, calls (own, inherited, Object methods, keywords, overloads, union receivers, Untyped members, multi-line argument lists and blocks, calls nested in if/unless/while/elsif/blocks); model `cfgmodel.go` = documented meaning of .ti-config; C07 certain-fail rows need a diagnostic on the row the call starts on, C08 certain-ok rows need none, C09 probes compared as type sets (nested arrays as (depth, class) pairs); string literal texts that look like other tokens (`"*star"`, `"&blk"`, `"**kw"`, `":sym"`, `"12"`); `Hash#delete` on hashes with several value classes; a printed union with a union inside is a violation by itself (`union-not-flat`) |
+| C10 | reference model | 300 programs, ~10k probes: if/unless/elsif/else nested to depth 3, `x.nil?`, `!x.nil?`, `x.is_a?(C)`, && chains over distinct and the same variable, unrelated statements and inner conditionals, also inside a method; variants include `Array<..>` and `Hash`; one condition in five does not split the variants (class test of an already narrowed variable, `nil?` of a non-nil one, `is_a?` of a foreign class: only the side keeping every variant is judged); one program in four uses global variables tested in a top-level, instance or class method |
 | C11 | relational (independence) | insertion of independent fragments (must be diagnostics-free alone) before real statements of hosts; host rows map, host output equal |
 | C12 | state-invariant hook | the rendered builtin table (`base.VerifDumpBuiltin`) before and after analysing sweep programs that call every configured method through every strategy |
 | C13 | relational (renaming) | consistent renaming of locals, ivars, methods, classes, keywords to fresh names of the same kind |
 | C14 | relational (keyword order) | permutations of keyword arguments at call sites of user and configured methods, union/nilable receivers, expression values |
 | C15 | reference model | 300 programs: 1-4 user methods (top/instance/class; positional, default, 1-2 keywords), 1-5 call sites (before/after the def, inside other methods, through a caller's parameter, as an expression on it), body probes, -i signature, --hover |
 | C16 | reference model | 300 hierarchies: depth 0-3, modules included/extended, def self./class << self, reopenings, namespaces 1-4 deep with the superclass in an enclosing one, initialize arity, private/protected (also from modules), names colliding with configured classes of other frames |
-| C17 | reference model | 300 programs, ~3800 probes: block calls (do/end, braces) on arrays, hashes, integers, strings, ranges, with and without arguments, generated configured classes; 0-3 parameters, shadowing, nesting, block locals |
+| C17 | reference model | 300 programs, ~3800 probes: block calls (do/end, braces) on arrays, hashes, integers, strings, ranges, with and without arguments, generated configured classes; 0-3 parameters, shadowing, nesting, block locals; an outermost block outside a method ends one time in three in a reported statement (undefined method, Integer + String) |
 | C18 | relational (preload split) | a program split at nesting-aware top-level boundaries into 1-3 preloaded files + target vs. the whole program; one case in five black-box direct |
 | C19-C21 | relational (configuration pairs) | `cfgrel.go`: renamed shipped files, classes split over files (`extends` in one or all parts, overloads kept together), extra unmentioned classes (fresh, namespaced, reusing user-class, module, core-class short names, forward-referenced superclasses), long vs compact notation (unions up to four members, Untyped members) |
 | C22 | reference model over -i / --define / --hover | 150 programs, ~1800 runs: def rows, c//i/ tags, visibility in effect (sections, class << self with own sections, nested classes), endless and two-line defs, every call row hovered |
@@ -170,6 +174,12 @@ build for C05); they are what `vp run` was used for.
   say which declaration answers: the return type is grey when an earlier
   declaration accepts part of a union argument. (The call itself stays
   certain-ok for C08.)
+* C17 (design decision, not an alarm): a reported statement inside a block
+  abandons the enclosing bodies (ti's error recovery), so after it nothing
+  inside them is judged; only the probes after the outermost block are.
+* C10: the generator wrapped `class Foo; end` into the method body together
+  with the statements (a class definition in a method body is not Ruby); class
+  declarations stay at top level.
 * C15/C23/C16: generator mistakes found on first runs (top-level locals used
   inside `def`, skipped default positionals shifting later arguments, a module
   both included and extended making a name both an instance and a class
@@ -232,7 +242,8 @@ binds to the previous statement's value.
 ### 11.7 Seeded changes: which check catches what
 """)
 w(f"""For every property fresh sub-agents (given only the property text and a scratch
-worktree) produced two changes that break the property, compile and keep all
+worktree) produced two changes (a second round, told what the first had
+produced, for C06, C09, C10, C12, C16, C17, C22, C24; a third for the others) that break the property, compile and keep all
 585 golden programs green. Each was confirmed in a scratch worktree (patch
 applies, golden runner 585/585, demonstration passes without and fails with the
 change) and then the property's check (quick tier, seed 1) was run against the
@@ -259,7 +270,12 @@ multi-line calls and blocks with arguments was invisible; (2) unions had two
 members, so subset/superset confusions were invisible; (3) generated classes
 never redeclared a method of Object or of a core class, so lookup-order and
 frame-confusion defects were invisible; (4) namespaces were one level deep;
-(5) the in-process driver cannot see `main()`, hence the black-box share.
+(5) the in-process driver cannot see `main()`, hence the black-box share;
+(6) every generated program analysed cleanly, so scope handling on the error
+path was invisible (C17); (7) statements were never placed next to each other
+by kind, so parser state leaking over a line end was invisible (C06 adjacency:
+it also found a genuine defect after `in Pattern => v`); (8) every test split
+the variants and every variable was a local (C10).
 
 ### 11.8 Self-validation performed
 
